@@ -186,9 +186,16 @@ func matchRes(exp ref.Exp, got fx.Res, b *bij) error {
 		if got.Err == "" {
 			return fmt.Errorf("%s: expected an error containing %q, observed success", where, exp.Err)
 		}
+		// the expected parts must occur in this order and without overlap (the token text quotes the user's
+		// message, so an unordered search would find a message inside the token that names it)
+		rest := got.Err
 		for _, part := range strings.Split(exp.Err, "\x00") {
-			if !strings.Contains(got.Err, part) {
-				return fmt.Errorf("%s: expected an error containing %q, observed %q", where, part, got.Err)
+			at := strings.Index(rest, part)
+			if at >= 0 {
+				rest = rest[at+len(part):]
+			}
+			if at < 0 {
+				return fmt.Errorf("%s: expected an error containing %q (after the preceding parts), observed %q", where, part, got.Err)
 			}
 		}
 		if got.V != nil && got.V.T != "nil" && got.V.S != "nil" {
